@@ -67,7 +67,7 @@ INVARIANT AtStop
 CHECK_DEADLOCK FALSE
 """
 
-N_PROGRAMS = 20
+N_PROGRAMS = 33
 BATCH = 600            # Print statements per simulated module
 ASSERT_BATCH = 48      # Assert/Assume statements per simulated module (one simulation run each)
 
@@ -485,14 +485,17 @@ def _emit(m, stmts, S):
 
 
 class TimingRig:
-    """The fixed design of FmtTiming (inputs a b s, registers cyc r t q) around one program of the catalogue."""
+    """The fixed design of FmtTiming (inputs a b s e f x, registers cyc r t q) around one program of the catalogue.
+    Programs with a non-empty `wrap` put their statements into a module of their own (or a submodule of it) which is
+    wrapped, innermost first, by EnableInserter(e) / EnableInserter(f) / ResetInserter(x); "rename" moves the whole design
+    to the clock domain `alt` with DomainRenamer while the clock of `sync` keeps toggling at another rate."""
 
     def __init__(self, prog, edge="pos"):
-        from amaranth.hdl import Module, Signal, ClockDomain
+        from amaranth.hdl import Module, Signal, ClockDomain, EnableInserter, ResetInserter, DomainRenamer
         from amaranth.sim import Simulator, Period
         m = Module()
-        m.domains.sync = ClockDomain(clk_edge=edge)      # the active edge of the domain: rising or falling
         S = {"a": Signal(name="a"), "b": Signal(name="b"), "s": Signal(2, name="s"),
+             "e": Signal(name="e"), "f": Signal(name="f"), "x": Signal(name="x"),
              "r": Signal(name="r"), "t": Signal(name="t"), "q": Signal(2, name="q"), "cyc": Signal(4, name="cyc")}
         m.d.sync += S["cyc"].eq(S["cyc"] + 1)
         m.d.sync += S["r"].eq(S["a"])
@@ -500,21 +503,61 @@ class TimingRig:
             m.d.sync += S["t"].eq(~S["t"])
         with m.If(S["b"]):
             m.d.sync += S["q"].eq(S["q"] + 1)
-        _emit(m, prog["body"], S)
+        wrap = [str(w) for w in prog.get("wrap", ())]
+        self.renamed = "rename" in wrap
+        if not wrap and not prog.get("sub") and not prog.get("reg"):
+            _emit(m, prog["body"], S)
+        else:
+            inner = Module()
+            if prog.get("reg"):
+                u = Signal(3, name="u")
+                inner.d.sync += u.eq(u + 1)
+            if prog.get("sub"):
+                chk = Module()
+                _emit(chk, prog["body"], S)
+                inner.submodules.chk = chk
+            else:
+                _emit(inner, prog["body"], S)
+            w = inner
+            for wr in wrap:
+                if wr == "en1":
+                    w = EnableInserter(S["e"])(w)
+                elif wr == "en2":
+                    w = EnableInserter({"sync": S["f"]})(w)
+                elif wr == "rst":
+                    w = ResetInserter(S["x"])(w)
+                elif wr != "rename":
+                    raise ValueError(wr)
+            m.submodules.inner = w
         self.S = S
         self.ins = []
-        self.sim = Simulator(m)
-        self.sim.add_clock(Period(MHz=1))
+        if self.renamed:
+            top = Module()
+            top.domains.alt = ClockDomain(clk_edge=edge)
+            top.domains.sync = ClockDomain()
+            other = Signal(name="other")
+            top.d.sync += other.eq(~other)
+            top.submodules.design = DomainRenamer("alt")(m)
+            self.sim = Simulator(top)
+            self.sim.add_clock(Period(ns=1000), domain="alt")
+            self.sim.add_clock(Period(ns=300), domain="sync")      # edges never coincide with alt's
+        else:
+            m.domains.sync = ClockDomain(clk_edge=edge)      # the active edge of the domain: rising or falling
+            self.sim = Simulator(m)
+            self.sim.add_clock(Period(MHz=1))
         self.sim.add_testbench(self._tb)
         self.first = True
 
     async def _tb(self, ctx):
-        for i, (a, b, s) in enumerate(self.ins):
+        for i, (a, b, s, e, f, x) in enumerate(self.ins):
             ctx.set(self.S["a"], a)
             ctx.set(self.S["b"], b)
             ctx.set(self.S["s"], s)
+            ctx.set(self.S["e"], e)
+            ctx.set(self.S["f"], f)
+            ctx.set(self.S["x"], x)
             print(_MARK % i, end="")
-            await ctx.tick()
+            await ctx.tick("alt" if self.renamed else "sync")
         print(_MARK % len(self.ins), end="")
 
     def run(self, ins):
@@ -615,7 +658,7 @@ def _timing_worker(job):
                                                  "stop": [leaf["stop"][0], sorted(leaf["stop"][1])] if leaf["stop"] else None},
                                     "actual": {"emitted": em, "stop": stop}})
             if res["sample"] is None and leaf["stop"] and leaf["emitted"]:
-                res["sample"] = {"program": pid, "inputs(a,b,s)": [list(x) for x in leaf["ins"]],
+                res["sample"] = {"program": pid, "inputs(a,b,s,e,f,x)": [list(x) for x in leaf["ins"]],
                                  "emitted(edge,id)": em, "stopped": stop}
     return res
 
@@ -642,7 +685,7 @@ def _is_leaf(st, limit):
 
 def _limit(prog, maxlen):
     uses = {str(u) for u in prog["uses"]}
-    return maxlen - 1 if len(uses) >= 2 and "s" in uses else maxlen
+    return maxlen - 1 if len(uses) + ("s" in uses) >= 3 else maxlen
 
 
 # ------------------------------------------------------------------------------------------------
@@ -677,10 +720,11 @@ def run(ctx):
     ]
     fmt_mutants = (("unsigned", "RoundTrip", "ShapesTiny"), ("group3", "GroupingShape", "ShapesTinyWide"),
                    ("nozfill", "ZeroPadReads", "ShapesTiny"))
-    tim_mutants = (("lastmatch", "EmitExact", "4"), ("late", "StopExact", "8"), ("postedge", "EmitExact", "7"))
+    tim_mutants = (("lastmatch", "EmitExact", "4"), ("late", "StopExact", "8"), ("postedge", "EmitExact", "7"),
+                   ("ignoreen", "EmitExact", "21"))
     if not th:          # quick: one seeded error per module (rotating with the seed); thorough: all of them
         fmt_mutants = (fmt_mutants[ctx.seed % 3],)
-        tim_mutants = (tim_mutants[(ctx.seed + 1) % 3],)
+        tim_mutants = (tim_mutants[(ctx.seed + 3) % 4],)
     for mut, inv, shp in fmt_mutants:
         tlc_jobs.append(("m", dict(module="MC_Fmt", stage="mc/mutant-" + mut, workers=1, expect_violation=inv,
                                    cfg_text=CFG_FMT.format(**dict(tiny, mutant=mut, shapes=shp)))))
@@ -763,7 +807,7 @@ def run(ctx):
     for x in tres:
         for m in x["mism"]:
             ctx.violation({"part": "timing", "program": m["program"], "clk_edge": m["clk_edge"], "ins": m["ins"]},
-                          "timing: program %d of FmtTiming in a %sedge domain, inputs (a,b,s) per edge %r: %s"
+                          "timing: program %d of FmtTiming in a %sedge domain, inputs (a,b,s,e,f,x) per edge %r: %s"
                           % (m["program"], m["clk_edge"], m["ins"], m["why"]),
                           replay=m)
         if x["sample"]:
@@ -801,6 +845,9 @@ def run(ctx):
     ctx.assume("timing: one clock domain, rising-edge and falling-edge variants; inputs are set by the testbench before each active edge")
     ctx.assume("timing: conditions of Assert/Assume/If may be 1 to 4 bits wide (register q, input s, s as a signed value, masked "
                "values): zero iff the whole value is zero. Cover is not modelled (its simulation output is not documented)")
+    ctx.assume("timing: activity from outside the module: EnableInserter (one or two, nested) gates every statement of the wrapped "
+               "module and its submodules, ResetInserter does not affect Print/Assert, DomainRenamer moves them to the renamed "
+               "domain's clock (second clock toggling at another rate)")
     ctx.assume("timing: sync domain only (the guide warns that combinational Print/Assert may fire on glitches); Prints active "
                "at the very edge at which the simulation stops may or may not be emitted; which of several assertions failing "
                "at the same edge is reported is not specified")
@@ -839,7 +886,7 @@ def _binding_demo(progs):
         if a != ("ok", "-0001"):
             raise _DemoSkipped("assume message: %r" % (a,))
         rig = TimingRig(progs[8])          # program 9: Print(3); If(b){Assert(1, a); Print(2)}
-        ins = [(1, 0, 0), (1, 1, 0), (0, 1, 0)]
+        ins = [(1, 0, 0, 0, 0, 0), (1, 1, 0, 0, 0, 0), (0, 1, 0, 0, 0, 0)]
         em, stop, stray = rig.run(ins)
         good = {"ins": ins, "emitted": ((0, 3), (1, 3), (1, 2)), "stop": (2, frozenset({(1, "assert")})), "atstop": frozenset({3})}
         if compare_timing(good, em, stop, stray):
